@@ -37,6 +37,19 @@ func genC02Twins(t *rapid.T) C02Twins {
 	c.Mode = pick(t, "mode", allModes)
 	c.Set = genC07Set(t, pick(t, "kind", []string{"stack", "stack", "exec"}))
 	c.Set.Prelude = ""
+	// a target may hold directives of its own: the host that is processed before the target
+	// stacks them unexpanded, the one processed after it stacks what they were expanded to
+	if c.Set.Kind == "stack" {
+		for i := range c.Set.Profiles {
+			if chance(t, "target-directive", 2) {
+				d := pick(t, "tdir", []string{"  #aa:dbus own bus=session name=org.twin.T", "  #aa:dbus talk bus=system name=org.twin.U label=unconfined", "  #aa:exec mmm-append"})
+				at := rapid.IntRange(0, len(c.Set.Profiles[i].Body)).Draw(t, "tdirat")
+				body := append([]string{}, c.Set.Profiles[i].Body[:at]...)
+				body = append(body, d)
+				c.Set.Profiles[i].Body = append(body, c.Set.Profiles[i].Body[at:]...)
+			}
+		}
+	}
 	for _, p := range c.Set.Profiles {
 		c.Tree.Files[twinDir+p.Name] = p.Text()
 	}
